@@ -538,12 +538,27 @@ def closed_protection_sets(chk, rule, repo):
                 tgt = n.value
             if tgt is not None:
                 out |= {a.attr for a in ast.walk(tgt) if isinstance(a, ast.Attribute)}
-                for a in ast.walk(tgt):
-                    if isinstance(a, ast.Name):
-                        out.add(a.id)
-                        if a.id not in seen and a.id != name:
-                            out |= built_with(a.id, seen | {name, a.id})
+                out |= {a.id for a in ast.walk(tgt) if isinstance(a, ast.Name)}
+                # only names whose VALUE flows into `name` (x = y, x = y | z, x = set(y), x = y.copy()); a name that is
+                # merely consulted in a filter (`... if down in candidates`) does not make the result closed
+                for nm in flows_from(tgt):
+                    if nm not in seen and nm != name:
+                        out |= built_with(nm, seen | {name, nm})
         return out
+
+    def flows_from(e):
+        if isinstance(e, ast.Name):
+            return {e.id}
+        if isinstance(e, ast.BinOp) and isinstance(e.op, (ast.BitOr, ast.BitAnd, ast.Sub)):
+            return flows_from(e.left) | flows_from(e.right)
+        if isinstance(e, ast.Call) and dotted(e.func) in ('set', 'frozenset', 'list', 'tuple', 'sorted') and len(e.args) == 1:
+            return flows_from(e.args[0])
+        if isinstance(e, ast.Call) and isinstance(e.func, ast.Attribute) and e.func.attr in ('copy', 'union'):
+            out_ = flows_from(e.func.value)
+            for a_ in e.args:
+                out_ |= flows_from(a_)
+            return out_
+        return set()
     for name, site in prot:
         apis = built_with(name, {name})
         ok = bool(apis & TRANSITIVE_APIS)
